@@ -938,3 +938,12 @@ Proof.
     + now apply Permutation_flat_map.
     + now apply Permutation_map.
 Qed.
+
+(** the answer to an operation does not depend on what was asked before or after it *)
+Theorem steps_history_independent x pre op post :
+  nth_error (run_history x (pre ++ op :: post)) (length pre) = Some (do_op x op) /\
+  run_history x (pre ++ op :: post) = run_history x pre ++ do_op x op :: run_history x post.
+Proof.
+  unfold run_history. rewrite map_app. cbn [map]. split; [|reflexivity].
+  rewrite nth_error_app2 by (rewrite map_length; lia). rewrite map_length, Nat.sub_diag. reflexivity.
+Qed.
